@@ -340,7 +340,11 @@ func runDirect(cfg Cfg, steps []Step, hooks *Hooks, maxHB int, tr *Trace) {
 		name string
 	}{{utils.EventLogon, "logon"}, {utils.EventLogout, "logout"}, {utils.EventDisconnect, "disconnect"}, {utils.EventRequest, "request"}} {
 		name := ev.name
-		r.s.OnChangeState(ev.e, func() bool { r.event("session:" + name); return true })
+		r.s.OnChangeState(ev.e, func() bool {
+			_ = r.s.IsLogged() // what an application callback typically does first: look at the session
+			r.event("session:" + name)
+			return true
+		})
 	}
 	// record the instant the session context is cancelled
 	ctxWatchDone := make(chan struct{})
